@@ -343,6 +343,11 @@ func vC09CompactionProperty(t *testing.T, name string, blockLimit bool, rule str
 		var junk string
 		nblocks := 0
 		var victimTomb string
+		if inj == "reader-error" && c.emptiedKey {
+			// the injection below relies on "at the first block written the victim file's iterator still has keys to
+			// visit"; with a key that yields no block at all the first block may already belong to the file's last key
+			inj = "none"
+		}
 		if inj == "reader-error" {
 			// the one error a BlockIterator reports: the number of keys of an input file changes while the
 			// compaction iterates it. At the first block written, the last key of one group file that holds at
